@@ -4,4 +4,4 @@ CONSTANTS
 SPECIFICATION TraceSpec
 CHECK_DEADLOCK FALSE
 POSTCONDITION TraceAccepted
-INVARIANTS Conforms C12Partition C17StaticShape
+INVARIANTS C12Partition C17StaticShape Conforms
